@@ -603,6 +603,20 @@ async fn exec_op(w: &Rc<World>, sidx: usize, opi: usize, op: &AppOp, sink: &v3::
                 },
             }
         }
+        AppOp::BadSubscribe { unsub } => {
+            let long = ByteString::from("y".repeat(70_000));
+            if *unsub {
+                match sink.unsubscribe().topic_filter(long).send().await {
+                    Ok(()) => OpResult::Ok(AckInfo::none("unsuback")),
+                    Err(e) => OpResult::Err(err_str(&e)),
+                }
+            } else {
+                match sink.subscribe().topic_filter(long, codec::QoS::AtLeastOnce).send().await {
+                    Ok(_) => OpResult::Ok(AckInfo::none("suback")),
+                    Err(e) => OpResult::Err(err_str(&e)),
+                }
+            }
+        }
         AppOp::Close | AppOp::CloseReason(_) | AppOp::CloseNoReason => {
             sink.close();
             OpResult::Ok(AckInfo::none("close"))
